@@ -233,6 +233,37 @@ func (f *Frame) specCall(st *State, e *ast.CallExpr, kind string) []*Term {
 		return []*Term{c.strLt(f.expr(st, e.Args[0]), f.expr(st, e.Args[1]))}
 	case kind == "strLower":
 		return []*Term{c.strLower(f.expr(st, e.Args[0]))}
+	case kind == "hashedLen" || kind == "hashedIsBytes" || kind == "hashedIsInt":
+		c.hitemSort()
+		h := f.expr(st, e.Args[0])
+		if h.Sort == SIfc {
+			h = ifaceRef(h)
+		}
+		ln := c.heapGet(st, "HS!len", ArrSort(SInt, SInt))
+		it := c.heapGet(st, "HS!items", ArrSort(SInt, ArrSort(SInt, "HItem")))
+		if kind == "hashedLen" {
+			return []*Term{Select(ln, h)}
+		}
+		j := f.expr(st, e.Args[1])
+		v := f.expr(st, e.Args[2])
+		item := Select(Select(it, h), j)
+		if kind == "hashedIsBytes" {
+			if v.Sort == SStr {
+				fn := c.declareFun("strToBytes", []Sort{SStr}, SByt)
+				v = App(fn, SByt, v)
+			}
+			return []*Term{Eq(item, App("HB", "HItem", v))}
+		}
+		return []*Term{Eq(item, App("HI", "HItem", v))}
+	case kind == "radixHas" || kind == "radixGet":
+		tr := f.expr(st, e.Args[0])
+		k := f.expr(st, e.Args[1])
+		dom := c.heapGet(st, "RX!dom", ArrSort(SInt, ArrSort(SStr, SBool)))
+		val := c.heapGet(st, "RX!val", ArrSort(SInt, ArrSort(SStr, SIfc)))
+		if kind == "radixHas" {
+			return []*Term{Select(Select(dom, tr), k)}
+		}
+		return []*Term{Select(Select(val, tr), k)}
 	case kind == "lastRPCErr":
 		h := c.heapGet(st, "G!lastRPCErr", ArrSort(SInt, SIfc))
 		return []*Term{Select(h, IntLit(0))}
@@ -805,7 +836,7 @@ func (f *Frame) checkFrame(st *State, entry *State, ct *Contract, ri int, where 
 		if !ok {
 			old = c.heapInit(h)
 		}
-		if same(cur, old) || h == "ALLOC" || strings.HasPrefix(h, "IT!") || strings.HasPrefix(h, "TX!") || h == "G!lastNow" || h == "G!lastRPCErr" {
+		if same(cur, old) || h == "ALLOC" || strings.HasPrefix(h, "IT!") || strings.HasPrefix(h, "HS!") || strings.HasPrefix(h, "TX!") || h == "G!lastNow" || h == "G!lastRPCErr" {
 			continue
 		}
 		whole := false
